@@ -10,3 +10,72 @@ Lemma sinusoid_derivs a w p k t : (k < 3)%nat ->
   is_derive (sin_d ROps a w p k) t (sin_d ROps a w p (S k) t).
 Proof. intros H. destruct k as [|[|[|k]]]; try lia; cbv [sin_d ROps nadd nmul nopp nsin ncos];
   auto_derive; try exact I; ring. Qed.
+
+(** the derivatives reported by the leaf measures (Constant, Time, Variable: every order; Sinusoid: orders 1..3) are the
+    time derivatives of the next lower order, with the variables held fixed.  (Plus/Minus/Scale offer no derivatives.) *)
+Require Import C23_Arith.
+Definition at_time (E : Env) (t : R) : Env := mkEnv t (e_stage E) (e_ver E) (e_vars E).
+Definition is_leaf (m : Tree) : Prop := match m with MConst _ | MTime | MVar _ | MSin _ _ _ _ _ _ _ => True | _ => False end.
+Lemma reported_derivatives_are_derivatives (E : Env) m k : is_leaf m -> k_ok m (S k) = true ->
+  is_derive (fun t => den_k (at_time E t) m k) (e_t E) (den_k E m (S k)).
+Proof. intros L K. destruct m; try destruct L.
+  - destruct k; simpl; auto_derive; auto.
+  - destruct k as [|[|k]]; simpl; auto_derive; auto; ring.
+  - destruct k; simpl; unfold var_val; simpl; auto_derive; auto.
+  - simpl in K. apply Nat.leb_le in K.
+    destruct k as [|[|[|k]]]; try lia; simpl den_k;
+      [apply (sinusoid_derivs a w p 0) | apply (sinusoid_derivs a w p 1) | apply (sinusoid_derivs a w p 2)]; lia. Qed.
+
+(** ** SampleAndHold, as documented in Measure.h (NOT implemented in the source: specification only, no tie).
+    After any operation sequence the held value is the source value at the time of the last sampling event (initialization
+    counts as one), or the last value set explicitly; advancing time never changes it. *)
+Fixpoint sh_spec (src : @vsrc R) (t : R) (held : list R * R) (ops : list (@shop R)) : list R * R :=
+  match ops with
+  | [] => held
+  | ShAdvance x :: r => sh_spec src x held r
+  | ShEvent :: r => sh_spec src t (veval ROps src t, t) r
+  | ShSet v :: r => sh_spec src t (v, t) r
+  end.
+Lemma sh_run_spec src : forall ops t held tm0,
+  fold_left (sh_step ROps src) ops (t, mkSH held tm0) =
+  (fst (fold_left (sh_step ROps src) ops (t, mkSH held tm0)),
+   mkSH (fst (sh_spec src t (held, tm0) ops)) (snd (sh_spec src t (held, tm0) ops))).
+Proof. induction ops as [|o r IH]; intros t held tm0; simpl; auto. destruct o; simpl; apply IH. Qed.
+Lemma sample_hold_holds src t0 ops1 advances :
+  List.Forall (fun o => exists x, o = ShAdvance x) advances ->
+  let '(t1, m1) := sh_run ROps src t0 (ops1 ++ [ShEvent]) in
+  h_val (snd (sh_run ROps src t0 (ops1 ++ [ShEvent] ++ advances))) = veval ROps src t1 /\
+  h_val m1 = veval ROps src t1 /\ h_time (snd (sh_run ROps src t0 (ops1 ++ [ShEvent] ++ advances))) = t1.
+Proof. intros Adv. unfold sh_run.
+  assert (H : forall adv t m, List.Forall (fun o => exists x, o = ShAdvance x) adv ->
+             snd (fold_left (sh_step ROps src) adv (t, m)) = m).
+  { induction adv as [|o r IH]; intros t m Fa; simpl; auto. inversion Fa as [|? ? [x ->] Fr]; subst. simpl. apply IH; auto. }
+  rewrite !fold_left_app.
+  destruct (fold_left (sh_step ROps src) ops1 (sh_init ROps src t0)) as [ta ma].
+  cbn [fold_left sh_step]. rewrite H; auto. Qed.
+
+(** ** Differentiate (finite-difference mode): the formula of ensureDerivativeIsRealized.  Its accuracy on a general
+    operand is NOT decided; it is exact for an affine operand, and with an exact previous derivative the second-order
+    correction is exact for a quadratic operand. *)
+Lemma f_ensure_value (E : Env) (m : @difm R) e f0 fd0 good0 t0 :
+  valid E (vdep (f_src m)) (f_upd m) = false -> f_src m = [e] -> f_dv m = ([f0], [fd0], good0) -> f_dvt m = Some t0 ->
+  e_t E <> t0 ->
+  ce_val (f_upd (f_ensure ROps E m)) =
+  ([peval ROps e (e_t E)],
+   [if good0 then 2 * ((peval ROps e (e_t E) - f0) / (e_t E - t0)) - fd0 else (peval ROps e (e_t E) - f0) / (e_t E - t0)], true).
+Proof. intros V Hs Hd Ht N. unfold f_ensure. rewrite V, Hd, Ht, Hs.
+  assert (Q : neqb ROps (e_t E) t0 = false).
+  { unfold neqb. simpl. destruct (Rleb (e_t E) t0) eqn:A; auto. destruct (Rleb t0 (e_t E)) eqn:B; auto.
+    apply Rleb_true in A, B. exfalso. apply N. lra. }
+  rewrite Q. destruct good0; simpl; unfold two; simpl; repeat f_equal; lra. Qed.
+Lemma differentiate_exact_on_affine a c f0 t t0 : t <> t0 -> f0 = a * t0 + c -> ((a * t + c) - f0) / (t - t0) = a.
+Proof. intros N ->. field. lra. Qed.
+Lemma differentiate_second_order_exact_on_quadratics a b c t t0 : t <> t0 ->
+  let f := fun x => a * x * x + b * x + c in
+  2 * ((f t - f t0) / (t - t0)) - (2 * a * t0 + b) = 2 * a * t + b.
+Proof. intros N f. unfold f. field. lra. Qed.
+
+(** ** Integrate: a specification only.  The measure's value IS the state variable z; at Acceleration stage zdot is set to
+    the integrand's value; whether z(t) equals the time integral is the integrator's accuracy (C20), not decided here. *)
+Lemma integrate_zdot_is_integrand (src : @pexpr R) t (m : @intm R) : i_zdot (i_acc ROps src t m) = peval ROps src t /\ i_z (i_acc ROps src t m) = i_z m.
+Proof. split; reflexivity. Qed.
